@@ -22,7 +22,8 @@ import (
 )
 
 // Op: conn (request connection to address A with dialer D under context C,
-// result kept in slot S), done (call the done function of slot S), cancel
+// result kept in slot S), done (call the done function of slot S), done2 (call
+// it from two goroutines at once), cancel
 // (cancel context C), wait (let N scheduling points pass).
 type Op struct {
 	K string `json:"k"`
@@ -87,7 +88,11 @@ func (H) Generate(rng *simrt.Rand, prop, tier string) (any, simrt.Config) {
 			case 1:
 				if len(live) > 0 {
 					k := rng.Intn(len(live))
-					ops = append(ops, Op{K: "done", S: live[k]})
+					kind := "done"
+					if rng.Chance(0.2) {
+						kind = "done2"
+					}
+					ops = append(ops, Op{K: kind, S: live[k]})
 					if rng.Chance(0.7) {
 						live = append(live[:k], live[k+1:]...)
 					}
@@ -268,6 +273,16 @@ func (H) Execute(x *common.Exec, s any) {
 						r.dones++
 						f()
 					}
+				case "done2": // the same release function from two goroutines at once (a deferred release racing a cancellation path)
+					if f := doneFns[op.S]; f != nil {
+						r := slots[op.S]
+						if r.doneAt == 0 {
+							r.doneAt = simrt.Stamp()
+						}
+						r.dones += 2
+						simrt.Go(f)
+						f()
+					}
 				case "cancel":
 					cancels[op.C%sc.Ctxs]()
 				case "wait":
@@ -368,6 +383,9 @@ func (H) Execute(x *common.Exec, s any) {
 		for _, op := range t {
 			if op.K == "cancel" {
 				x.Fault("context-cancelled")
+			}
+			if op.K == "done2" {
+				x.Fault("release-from-two-goroutines-at-once")
 			}
 		}
 	}
